@@ -84,12 +84,12 @@ Proof.
     destruct (mem_drop_blk_spec m1 bk1 da sz) as (m2 & -> & F2 & N2 & H2).
     { live_tac. }
     { shape da lk Hda Hnd Hlv; intros id Hid; cbn [In] in Hid;
-        first [solve [destruct Hid] | destruct Hid as [<-|[]]; split; [live_tac|lia]]. }
+        first [solve [destruct Hid] | destruct Hid as [<-|[]]; split; [live_tac|neq_tac]]. }
     cbn [of_opt mbind].
     set (idx1 := block_next ib (it_index it)) in *.
     destruct (bkey_sync_spec pol m2 ikey ib idx1 oldi) as (m3 & ik1 & c3 & -> & S3 & Hc3).
     { shape da lk Hda Hnd Hlv; live_tac. }
-    { lia. }
+    { lia_nd. }
     destruct S3 as (F3 & N3 & I3 & D3 & H3). cbn [of_opt mbind].
     destruct (bs_valid idx1) eqn:Ev3; cbn [negb] in *.
     2:{ change (fun_finish it None (it_block_offset it) bi1 idx1 false = Ok (it', e)) in Hf.
@@ -103,7 +103,7 @@ Proof.
     cbn [mbind].
     destruct (alloc m4 []) as [m5 nbk] eqn:Ea. destruct (alloc_spec _ _ _ _ Ea) as (Enbk & N5 & F5 & HH5).
     destruct (block_seek_to_first nb) as [nbi| | |] eqn:Es; try discriminate. cbn [of_res mbind].
-    destruct (bkey_sync_spec pol m5 nbk nb nbi []) as (m6 & nbk1 & c6 & -> & S6 & Hc6); [live_tac|lia|].
+    destruct (bkey_sync_spec pol m5 nbk nb nbi []) as (m6 & nbk1 & c6 & -> & S6 & Hc6); [live_tac|lia_nd|].
     destruct S6 as (F6 & N6 & I6 & D6 & HH6). cbn [of_opt mbind].
     change (fun_finish it (Some (off, nb)) off nbi idx1 (bs_valid nbi) = Ok (it', e)) in Hf.
     destruct Hcase as [((nfo & -> & Hnraw) & ->)|(-> & N4 & HH4)].
